@@ -200,7 +200,8 @@ def identities(tier):
     for sa, sb in [((2, 3), (2, 3)), ((2, 3), (3,)), ((), (2,))]:
         cs.append(PairCase("a-b=a+(-b)", {"shapes": [sa, sb]}, [L("a", sa), L("b", sb)], lambda T: T["a"] - T["b"], lambda T: F.add(T["a"], F.neg(T["b"]))))
         cs.append(PairCase("a/b=a*b**-1", {"shapes": [sa, sb]}, [L("a", sa), L("b", sb, "nonzero")], lambda T: T["a"] / T["b"], lambda T: F.mul(T["a"], F.pow(T["b"], -1))))
-    for shape, dim in [((2, 3), None), ((2, 3), 0), ((2, 3), -1), ((2, 3, 2), (0, 2)), ((3,), 0)]:
+    for shape, dim in [((2, 3), None), ((2, 3), 0), ((2, 3), -1), ((2, 3, 2), (0, 2)), ((3,), 0), ((2, 3, 2), (0, -1)), ((2, 3), (-2, -1)), ((2, 3, 2), (-2,)), ((2, 3, 2), (2, 0)),
+                       ((2, 3, 2), 1), ((), None)]:
         cnt = int(np.prod(shape)) if dim is None else int(np.prod([shape[d] for d in ((dim,) if isinstance(dim, int) else dim)]))
         for keep in (False, True):
             cs.append(PairCase("mean=sum/count", {"shape": shape, "dim": dim, "keepdims": keep}, [L("a", shape)],
@@ -286,6 +287,24 @@ def identities(tier):
     cs.append(PairCase("Sequential=composition", {"form": "OrderedDict with unsorted keys"}, [L("x", (2, 2)), L("w", (2, 2)), L("b", (2,))],
                        lambda T: (lambda m: nn.Sequential(OrderedDict([("z", m[0]), ("a", m[1]), ("m", m[2])]))(T["x"]))(mods(T)),
                        lambda T: (lambda m: m[2](m[1](m[0](T["x"]))))(mods(T))))
+    # the same module object at two positions (shared activation, weight tying): still plain composition, position by position
+    def shared_act(T):
+        l1, _, _ = mods(T)
+        act = nn.Tanh()
+        return nn.Sequential(l1, act, l1, act)(T["x"])
+
+    def shared_act_rhs(T):
+        l1, _, _ = mods(T)
+        act = nn.Tanh()
+        return act(l1(act(l1(T["x"]))))
+    cs.append(PairCase("Sequential=composition", {"form": "same module object at several positions"}, [L("x", (2, 2)), L("w", (2, 2)), L("b", (2,))], shared_act, shared_act_rhs,
+                       functions=("synapgrad.nn.modules.Sequential.forward", "synapgrad.nn.modules.Module.submodules")))
+    cs.append(PairCase("Sequential=composition", {"form": "OrderedDict, same module under two keys"}, [L("x", (2, 2)), L("w", (2, 2)), L("b", (2,))],
+                       lambda T: (lambda m: nn.Sequential(OrderedDict([("first", m[0]), ("act", m[1]), ("again", m[0])]))(T["x"]))(mods(T)),
+                       lambda T: (lambda m: m[0](m[1](m[0](T["x"]))))(mods(T))))
+    cs.append(PairCase("Sequential=composition", {"form": "empty"}, [L("x", (2, 2))], lambda T: nn.Sequential()(T["x"]) * 1.0, lambda T: T["x"] * 1.0))
+    cs.append(PairCase("Sequential=composition", {"form": "nested"}, [L("x", (2, 2)), L("w", (2, 2)), L("b", (2,))],
+                       lambda T: (lambda m: nn.Sequential(nn.Sequential(m[0], m[1]), nn.Sequential(m[2]))(T["x"]))(mods(T)), lambda T: (lambda m: m[2](m[1](m[0](T["x"]))))(mods(T))))
     return cs
 
 
